@@ -1,8 +1,8 @@
 use clap::Parser;
-use std::fs;
 use std::path::PathBuf;
 use tauri_typegen::analysis::CommandAnalyzer;
 use tauri_typegen::build::GenerationCache;
+use tauri_typegen::generators::base::file_writer::FileWriter;
 use tauri_typegen::generators::create_generator;
 use tauri_typegen::interface::{
     print_dependency_visualization_info, print_usage_info, CargoCli, CargoSubcommands,
@@ -273,11 +273,11 @@ fn run_generate(
     if config.should_visualize_deps() {
         let text_viz = analyzer.visualize_dependencies(&commands);
         let viz_file_path = PathBuf::from(&config.output_path).join("dependency-graph.txt");
-        fs::write(&viz_file_path, text_viz)?;
+        FileWriter::write_or_remove(&viz_file_path, &text_viz)?;
 
         let dot_viz = analyzer.generate_dot_graph(&commands);
         let dot_file_path = PathBuf::from(&config.output_path).join("dependency-graph.dot");
-        fs::write(&dot_file_path, dot_viz)?;
+        FileWriter::write_or_remove(&dot_file_path, &dot_viz)?;
 
         print_dependency_visualization_info(&config.output_path);
     }
